@@ -15,14 +15,16 @@ use std::fmt::Write as _;
 use std::panic::{catch_unwind, AssertUnwindSafe};
 
 #[derive(Clone)]
-struct System { exact: bool, vars: Vec<Var>, coef: Vec<Vec<i32>>, rhs: Vec<f32>, truth: Vec<f32>, fixed: Vec<bool>, start: Vec<f32> }
+struct System { exact: bool, scale: f32, unused: Vec<(Var, bool, f32)>, vars: Vec<Var>, coef: Vec<Vec<i32>>, rhs: Vec<f32>, truth: Vec<f32>, fixed: Vec<bool>, start: Vec<f32> }
 
 fn gen_system(r: &mut Rng) -> System {
     let n = *r.pick(&[1usize, 2, 3, 4, 5, 6, 7, 8, 10, 13, 16, 25, 40]);
     let vars: Vec<Var> = (0..n).map(|_| Var::new()).collect();
     // half of the systems have solutions on a dyadic grid (every residual can reach exactly 0), half do not
     let exact = r.chance(0.5);
-    let truth: Vec<f32> = (0..n).map(|_| if exact { (r.range(0, 16) as f32 - 8.0) * 0.5 } else { (r.unit() as f32 - 0.5) * 8.0 }).collect();
+    // coefficients times a power of two, unknowns divided by it: the right-hand sides stay of order 1 while every unknown is tiny
+    let scale = *r.pick(&[1.0f32, 1.0, 1.0, 1024.0, 1048576.0, 33554432.0]);
+    let truth: Vec<f32> = (0..n).map(|_| (if exact { (r.range(0, 16) as f32 - 8.0) * 0.5 } else { (r.unit() as f32 - 0.5) * 8.0 }) / scale).collect();
     let mode = r.below(5);
     let fixed: Vec<bool> = (0..n).map(|_| match mode { 0 => false, 1 => true, _ => r.chance(0.35) }).collect();
     // one equation per variable: diagonally dominant rows over a few variables each
@@ -32,29 +34,38 @@ fn gen_system(r: &mut Rng) -> System {
         let extra = r.below(3.min(n));
         for _ in 0..extra { let j = r.below(n); if j != i { coef[i][j] = r.below(3) as i32 - 1; } }
     }
-    let rhs: Vec<f32> = (0..n).map(|i| (0..n).map(|j| coef[i][j] as f32 * truth[j]).sum()).collect();
-    let start: Vec<f32> = (0..n).map(|j| if fixed[j] { truth[j] } else if r.chance(0.15) { truth[j] } else { truth[j] + (r.range(0, 8) as f32 - 4.0) * 0.25 }).collect();
-    System { exact, vars, coef, rhs, truth, fixed, start }
+    let rhs: Vec<f32> = (0..n).map(|i| (0..n).map(|j| coef[i][j] as f32 * scale * truth[j]).sum()).collect();
+    let start: Vec<f32> = (0..n).map(|j| if fixed[j] { truth[j] } else if r.chance(0.15) { truth[j] } else { truth[j] + (r.range(0, 8) as f32 - 4.0) * 0.25 / scale }).collect();
+    // parameters that occur in no equation: a free one still gets a value in the result, a fixed one does not
+    let unused: Vec<(Var, bool, f32)> = if r.chance(0.3) { (0..r.range(1, 3)).map(|_| (Var::new(), r.chance(0.4), gen_tame(r))).collect() } else { vec![] };
+    System { exact, scale, unused, vars, coef, rhs, truth, fixed, start }
 }
 
 fn build<F: Function + MathFunction>(s: &System) -> Vec<F> {
     (0..s.coef.len()).map(|i| {
         let mut t = Tree::constant(-s.rhs[i]);
-        for j in 0..s.vars.len() { if s.coef[i][j] != 0 { t = t + Tree::from(s.vars[j]) * (s.coef[i][j] as f32); } }
+        for j in 0..s.vars.len() { if s.coef[i][j] != 0 { t = t + Tree::from(s.vars[j]) * (s.coef[i][j] as f32 * s.scale); } }
         let mut ctx = Context::new();
         let n = ctx.import(&t);
         F::new(&ctx, &[n]).unwrap()
     }).collect()
 }
 
-fn check<F: Function + MathFunction + 'static>(s: &System, backend: &str, bad: &mut Vec<String>) -> Option<HashMap<Var, f32>> {
+fn params_of(s: &System) -> HashMap<Var, Parameter> {
     let mut params = HashMap::new();
     for j in 0..s.vars.len() { params.insert(s.vars[j], if s.fixed[j] { Parameter::Fixed(s.start[j]) } else { Parameter::Free(s.start[j]) }); }
-    // the solver runs on its own thread: a call that does not come back within the limit is reported (and its thread left behind)
+    for (v, fixed, val) in &s.unused { params.insert(*v, if *fixed { Parameter::Fixed(*val) } else { Parameter::Free(*val) }); }
+    params
+}
+
+fn check<F: Function + MathFunction + 'static>(s: &System, backend: &str, bad: &mut Vec<String>) -> Option<HashMap<Var, f32>> {
+    let params = params_of(s);
+    // the solver runs on its own thread: a call that does not come back within the limit (5 minutes: the slowest solve seen on the
+    // repaired code, 40 unknowns of which three creep toward an exactly-zero solution, takes half a minute) is reported, its thread left behind
     let (tx, rx) = std::sync::mpsc::channel();
     let (s2, p2) = (s.clone(), params.clone());
     std::thread::spawn(move || { let eqs: Vec<F> = build(&s2); let r = catch_unwind(AssertUnwindSafe(|| solve(&eqs, &p2))); let _ = tx.send(r); });
-    let limit = std::time::Duration::from_secs(std::env::var("FV_SOLVE_LIMIT").ok().and_then(|v| v.parse().ok()).unwrap_or(20));
+    let limit = std::time::Duration::from_secs(std::env::var("FV_SOLVE_LIMIT").ok().and_then(|v| v.parse().ok()).unwrap_or(300));
     let sol = match rx.recv_timeout(limit) {
         Ok(Ok(Ok(m))) => m,
         Ok(Ok(Err(e))) => { bad.push(format!("kind=solver-error backend={backend} {e}")); return None; }
@@ -71,17 +82,24 @@ fn check<F: Function + MathFunction + 'static>(s: &System, backend: &str, bad: &
         if s.fixed[j] && sol.contains_key(&s.vars[j]) { bad.push(format!("kind=fixed-in-result backend={backend} variable {j}")); }
         if !s.fixed[j] && !sol.contains_key(&s.vars[j]) { bad.push(format!("kind=free-missing backend={backend} variable {j}")); }
     }
-    if sol.len() != s.fixed.iter().filter(|f| !**f).count() { bad.push(format!("kind=result-size backend={backend} {} entries", sol.len())); }
+    for (v, fixed, _) in &s.unused {
+        if *fixed && sol.contains_key(v) { bad.push(format!("kind=fixed-in-result backend={backend} a fixed parameter that occurs in no equation")); }
+        if !*fixed && !sol.contains_key(v) { bad.push(format!("kind=free-missing backend={backend} a free parameter that occurs in no equation has no value in the result")); }
+    }
+    if sol.len() != s.fixed.iter().filter(|f| !**f).count() + s.unused.iter().filter(|u| !u.1).count() { bad.push(format!("kind=result-size backend={backend} {} entries", sol.len())); }
     // residual with fixed parameters at their given values
     let val = |j: usize| if s.fixed[j] { s.start[j] } else { *sol.get(&s.vars[j]).unwrap_or(&f32::NAN) };
     let all_start_exact = (0..s.vars.len()).all(|j| s.start[j] == s.truth[j]);
     let mut worst = 0f32;
     for i in 0..s.coef.len() {
-        let r: f32 = (0..s.vars.len()).map(|j| s.coef[i][j] as f32 * val(j)).sum::<f32>() - s.rhs[i];
+        let r: f32 = (0..s.vars.len()).map(|j| s.coef[i][j] as f32 * s.scale * val(j)).sum::<f32>() - s.rhs[i];
         worst = worst.max(r.abs());
     }
     // fixed parameters sit at their true values, so the system stays consistent
-    if !(worst <= 1e-3) { bad.push(format!("kind=large-residual backend={backend} residual={worst} n={} fixed={}", s.vars.len(), s.fixed.iter().filter(|f| **f).count())); }
+    // (unknowns of order 1: 1e-3 has never been exceeded; unknowns of order 1e-3 .. 1e-8 against coefficients of 1e3 .. 1e8: the f32
+    //  Levenberg-Marquardt iteration stalls at up to about 1e-2 on the unchanged code, an early exit shows as a residual of order 1)
+    let res_tol = if s.scale == 1.0 { 1e-3 } else { 5e-2 };
+    if !(worst <= res_tol) { bad.push(format!("kind=large-residual backend={backend} residual={worst} n={} fixed={} scale={} start={:?} truth={:?} result={:?} coef={:?}", s.vars.len(), s.fixed.iter().filter(|f| **f).count(), s.scale, s.start, s.truth, (0..s.vars.len()).map(|j| val(j)).collect::<Vec<_>>(), s.coef)); }
     // (only systems on the dyadic grid are satisfied EXACTLY in f32 at their solution)
     if all_start_exact && s.exact {
         for j in 0..s.vars.len() { if !s.fixed[j] && sol[&s.vars[j]].to_bits() != s.start[j].to_bits() {
@@ -99,6 +117,7 @@ pub fn run(seed: u64, count: usize, outdir: &str) -> std::io::Result<i32> {
     for ci in 0..count {
         let mut r = rng.fork();
         let s = gen_system(&mut r);
+        if let Ok(o) = std::env::var("FV_ONLY") { if o.parse::<usize>().ok() != Some(ci) { cases.push_str("c19 0 0\n"); impls.push_str("nfree 0 | seeds\n"); continue; } }
         let n = s.vars.len();
         let nfix = s.fixed.iter().filter(|f| **f).count();
         *hist.entry(format!("n={n}")).or_default() += 1;
@@ -107,19 +126,18 @@ pub fn run(seed: u64, count: usize, outdir: &str) -> std::io::Result<i32> {
         let a = check::<VmFunction>(&s, "vm", &mut bad);
         let b = check::<JitFunction>(&s, "jit", &mut bad);
         if let (Some(a), Some(b)) = (a, b) {
-            for j in 0..n { if !s.fixed[j] { let (x, y) = (a[&s.vars[j]], b[&s.vars[j]]); if (x - y).abs() > 1e-3 * (1.0 + x.abs()) {
+            for j in 0..n { if !s.fixed[j] { let (x, y) = (a[&s.vars[j]], b[&s.vars[j]]); if (x - y).abs() * s.scale > 1e-3 * (1.0 + x.abs() * s.scale) {
                 bad.push(format!("kind=backends-disagree variable {j}: vm {x} jit {y}")); } } }
         }
         // ---- seed packing through the hook: Jacobian = coefficient matrix, seeds = model's table
         let eqs: Vec<VmFunction> = build(&s);
-        let mut params = HashMap::new();
-        for j in 0..n { params.insert(s.vars[j], if s.fixed[j] { Parameter::Fixed(s.start[j]) } else { Parameter::Free(s.start[j]) }); }
+        let params = params_of(&s);
         let (index, rows, _res, grads) = verif_jacobian(&eqs, &params);
         let nfree = index.len();
-        let pos = |v: Var| s.vars.iter().position(|x| *x == v).unwrap();
+        let pos = |v: Var| s.vars.iter().position(|x| *x == v);
         for (ti, row) in rows.iter().enumerate() {
             for (v, gi) in &index {
-                let want = s.coef[ti][pos(*v)] as f32;
+                let want = match pos(*v) { Some(j) => s.coef[ti][j] as f32 * s.scale, None => 0.0 };
                 if row[*gi] != want { bad.push(format!("kind=jacobian-column equation {ti} column {gi}: {} expected {want} (n={n} free={nfree})", row[*gi])); }
             }
         }
